@@ -28,6 +28,9 @@ type VCase struct {
 	Shred  int   `json:"shred"` // 0 unshredded, 1 {a:int64,b:string}, 2 {a:int64,c:list<int64>}, 3 {a:{x:int64}}
 	Ops    []VOp `json:"ops"`
 	PageSz int   `json:"pagesz"`
+	// DictMax > 0: the typed leaves are dictionary-encoded and the writer falls back to PLAIN once a
+	// dictionary exceeds DictMax bytes (dictionary pages followed by plain pages in one chunk)
+	DictMax int `json:"dictmax,omitempty"`
 }
 
 var vpaths = [][]string{{"a"}, {"b"}, {"c"}, {"a", "x"}, {"zz"}}
@@ -63,6 +66,12 @@ func genV(t *rapid.T) VCase {
 	}
 	c.Shred = rapid.IntRange(0, 3).Draw(t, "shred")
 	c.PageSz = []int{64, 256, 0}[rapid.IntRange(0, 2).Draw(t, "pagesz")]
+	if c.Shred > 0 && rapid.IntRange(0, 2).Draw(t, "dict") == 0 {
+		c.DictMax = []int{16, 64, 200, 1 << 20}[rapid.IntRange(0, 3).Draw(t, "dictmax")]
+		if c.PageSz == 0 {
+			c.PageSz = 256
+		}
+	}
 	nops := rapid.IntRange(2, 14).Draw(t, "nops")
 	for i := 0; i < nops; i++ {
 		switch rapid.IntRange(0, 5).Draw(t, "op") {
@@ -112,13 +121,17 @@ func snapshot(c *parquet.VariantCursor) string {
 func runV(c VCase, o *kit.Obs) *kit.Failure {
 	var node parquet.Node = parquet.Variant()
 	var err error
+	i64, str := parquet.Node(parquet.Int(64)), parquet.Node(parquet.String())
+	if c.DictMax > 0 {
+		i64, str = parquet.Encoded(i64, &parquet.RLEDictionary), parquet.Encoded(str, &parquet.RLEDictionary)
+	}
 	switch c.Shred {
 	case 1:
-		node, err = parquet.ShreddedVariant(parquet.Group{"a": parquet.Int(64), "b": parquet.String()})
+		node, err = parquet.ShreddedVariant(parquet.Group{"a": i64, "b": str})
 	case 2:
-		node, err = parquet.ShreddedVariant(parquet.Group{"a": parquet.Int(64), "c": parquet.List(parquet.Int(64))})
+		node, err = parquet.ShreddedVariant(parquet.Group{"a": i64, "c": parquet.List(i64)})
 	case 3:
-		node, err = parquet.ShreddedVariant(parquet.Group{"a": parquet.Group{"x": parquet.Int(64)}})
+		node, err = parquet.ShreddedVariant(parquet.Group{"a": parquet.Group{"x": i64}})
 	}
 	if err != nil {
 		o.Rejected()
@@ -129,6 +142,9 @@ func runV(c VCase, o *kit.Obs) *kit.Failure {
 	wo := []parquet.WriterOption{schema}
 	if c.PageSz > 0 {
 		wo = append(wo, parquet.PageBufferSize(c.PageSz))
+	}
+	if c.DictMax > 0 {
+		wo = append(wo, parquet.DictionaryMaxBytes(int64(c.DictMax)))
 	}
 	w := parquet.NewWriter(&buf, wo...)
 	vw, err := parquet.NewVariantColumnWriter(w, "var")
@@ -227,6 +243,42 @@ func runV(c VCase, o *kit.Obs) *kit.Failure {
 						return kit.Failf("c08/variant/window-differs{cursor=path}", "op %d: window [%d,%d) of cursor %v after history %v:\n got  %s\n want %s", oi, pos, pos+int64(k), vpaths[pi], c.Ops[:oi+1], got, want[pi])
 					}
 				}
+				// truth for the typed int64 vectors (the two readers above share their page decoding):
+				// path a under shredding 1/2 holds 1000+i (shape 0) and -i (shape 6); a.x under shredding 3 holds i (shape 2)
+				truth := func(pi int, f func(code, i int) (int64, bool)) *kit.Failure {
+					cur, ok := cursors[pi]
+					if !ok {
+						return nil
+					}
+					var want []int64
+					for i := pos; i < pos+int64(k); i++ {
+						if v, ok := f(c.Rows[i]%8, int(i)); ok {
+							want = append(want, v)
+						}
+					}
+					if got := cur.Int64s(); fmt.Sprint(got) != fmt.Sprint(want) && !(len(got) == 0 && len(want) == 0) {
+						return kit.Failf("c08/variant/typed-values-differ", "op %d: window [%d,%d) of cursor %v: typed int64 values %v, written %v", oi, pos, pos+int64(k), vpaths[pi], got, want)
+					}
+					return nil
+				}
+				if c.Shred == 1 || c.Shred == 2 {
+					if fl := truth(0, func(code, i int) (int64, bool) {
+						switch code {
+						case 0:
+							return int64(1000 + i), true
+						case 6:
+							return int64(-i), true
+						}
+						return 0, false
+					}); fl != nil {
+						return fl
+					}
+				}
+				if c.Shred == 3 {
+					if fl := truth(3, func(code, i int) (int64, bool) { return int64(i), code == 2 }); fl != nil {
+						return fl
+					}
+				}
 				windows++
 			}
 			pos += int64(k)
@@ -235,6 +287,7 @@ func runV(c VCase, o *kit.Obs) *kit.Failure {
 	}
 	o.Class(fmt.Sprintf("shredding-%d", c.Shred))
 	o.ClassIf(lateCursors > 0, "cursor-created-after-positioning")
+	o.ClassIf(c.DictMax > 0, "dictionary-encoded-typed-leaves")
 	if seeks > 0 && windows >= 2 {
 		o.NonTrivial()
 	}
